@@ -7,8 +7,8 @@ VERIF = os.path.dirname(os.path.dirname(os.path.abspath(__file__)))
 REPO = os.environ.get('VERIF_REPO', '/repo')
 BUILD = os.environ.get('VERIF_BUILD', os.path.join(VERIF, 'build'))
 COQ = os.path.join(VERIF, 'coq')
-REPLAYS = os.path.join(VERIF, 'replays')
-EVID = os.path.join(VERIF, 'evidence')
+REPLAYS = os.environ.get('VERIF_REPLAYS', os.path.join(VERIF, 'replays'))
+EVID = os.environ.get('VERIF_EVID', os.path.join(VERIF, 'evidence'))      # overridden only by tools/seedcheck.py (scratch runs)
 NPROC = 16
 
 LIB_SRCS = ['N2kMsg.cpp', 'N2kStream.cpp', 'N2kMessages.cpp', 'N2kTimer.cpp', 'Seasmart.cpp', 'N2kDeviceList.cpp',
